@@ -889,6 +889,10 @@ def scan_guards(repo, consts, flags):
                        r'std::ostringstream out; args\[0\]\.print\(out, first_width, latter_width, flags\);', b)
         if ml:
             g['justify_width_limit'] = int(ml.group(1))
+    # format.cc parse_elements, escape branch: the character after a backslash is tested before the
+    # loop steps over it (the repair proposed for F67; false while it is not in the source)
+    g['format_backslash_guard'] = bool(re.search(
+        r"if \(\*p == '\\\\'\) \{ p\+\+; if \(! \*p\) throw_ ?\(format_error,[^;]*\); current->type = element_t::STRING; switch \(\*p\) \{", fm))
     # (d) the period parser rejects `every 0 <unit>`
     tc = strip_comments(open(os.path.join(src, 'times.cc'), errors='replace').read())
     m = re.search(r'case\s+lexer_t::token_t::TOK_EVERY\s*:(.*?)case\s+lexer_t::token_t::TOK_YEARS', tc, re.S)
@@ -999,6 +1003,8 @@ def generate(repo):
           '(* the repairs proposed for F63 F64: false / None while they are not in the source *)',
           'Definition src_debug_options_guard : bool := %s.' % bl(g['debug_options_guard']),
           'Definition src_justify_width_limit : option Z := %s.' % opt(g['justify_width_limit']),
+          '(* format.cc parse_elements: `if (! *p) throw` after the step over a backslash (proposed for F67) *)',
+          'Definition src_format_backslash_guard : bool := %s.' % bl(g['format_backslash_guard']),
           '(* journal.cc expand_aliases: each branch records in already_seen the name it looked up (Model/Aliases.v) *)',
           'Definition src_alias_records_what_it_looks_up : bool := %s.' % bl(g['alias_records_what_it_looks_up']),
           '(* format.cc parse_elements `%$N`: template / index / null tests exactly as modelled in Model/FormatRef.v *)',
